@@ -91,6 +91,12 @@ def body_factory(ctx):
             with prior.model:
                 init = joker.setup_mcmc(data, js)
         m = prior.model
+        # ---- the prior's declared units are inputs as well
+        units_after = {nm: getattr(prior.pars[nm], xu.UNIT_ATTR_NAME) for nm in prior.par_names}
+        if any(units_after[nm] != units_prior[nm] for nm in units_prior):
+            raise Violation("setup_mcmc changed the units declared on the prior's variables (later samples, MCMC starts and "
+                            "conversions would be off by the unit ratio)", before={k: str(v) for k, v in units_prior.items()},
+                            after={k: str(v) for k, v in units_after.items()})
         # ---- the caller's data are inputs: building the model must leave them as they were
         fresh = gens.build_data(spec)
         pairs = list(zip(data.values(), fresh.values())) if isinstance(data, dict) else (
